@@ -169,7 +169,47 @@ def check_sqlite(inp):
         return f'examples of {k!r}: {m}'
 
 
-CHECKERS = {'roundtrip': (check_roundtrip, sweep_roundtrip),
+def check_axioms(inp):
+  """The NumPy facts the proof assumes (np_axioms in pyvc/props/C16.py), tested on concrete dtypes."""
+  import jax.numpy as jnp
+  name = inp['dtype']
+  dt = np.dtype(jnp.bfloat16) if name == 'bfloat16' else np.dtype([tuple(x) for x in name] if isinstance(name, list) else name)
+
+  def named(n_):
+    try:
+      return np.dtype(n_)
+    except TypeError:
+      return None
+  for d in (dt, dt.newbyteorder('>') , dt.newbyteorder('<')):
+    struct = d.fields is not None
+    if name == 'bfloat16':
+      if np.dtype(d.str) == d:
+        return 'axiom: the type string of bfloat16 is expected NOT to denote bfloat16'
+      continue
+    if not struct and not d.hasobject:
+      if np.dtype(d.name) != d.newbyteorder('='):
+        return f'axiom name->native fails for {d!r}'
+      if np.dtype(d.str) != d:
+        return f'axiom str->dtype fails for {d!r}'
+    if struct and (named(d.name) == d or named(d.str) == d):
+      return f'axiom: structured dtype {d!r} is expected not to be named by .name / .str'
+  a = np.arange(6, dtype=dt).reshape(2, 3) if dt.fields is None and dt.kind in 'iufc' and name != 'bfloat16' else None
+  if a is not None:
+    for arr in (a, np.asfortranarray(a), a[:, ::2]):
+      if not np.array_equal(np.frombuffer(arr.tobytes('C'), dtype=arr.dtype).reshape(arr.shape), arr):
+        return f'axiom: frombuffer(tobytes("C")) is not the identity for {dt!r}'
+  if np.ascontiguousarray(np.zeros((), np.float32)).ndim != 1:
+    return 'axiom: ascontiguousarray of a 0-d array is expected to be 1-d'
+
+
+def sweep_axioms(tier, seed):
+  for n in ('bool', 'int8', 'uint8', 'int16', 'uint16', 'int32', 'uint32', 'int64', 'uint64', 'float16', 'float32', 'float64',
+            'complex64', 'complex128', 'bfloat16'):
+    yield dict(dtype=n)
+  yield dict(dtype=[('a', 'i4'), ('b', 'f8')])
+
+
+CHECKERS = {'axioms': (check_axioms, sweep_axioms), 'roundtrip': (check_roundtrip, sweep_roundtrip),
             'sqlite': (check_sqlite, lambda t, s: [dict(n=0), dict(n=1), dict(n=4)])}
 
 if __name__ == '__main__':
